@@ -7,7 +7,7 @@ SIGS_IN = {'': [], 'i': [7], 's': ['txt'], 'ii': [1, 2], 'as': [['a', 'b']], '(i
 SIGS_OUT = ['', 'i', 's', 'is', 'ai', '(ii)']
 OUT_VALUE = {'': None, 'i': 5, 's': 'res', 'is': (4, 'four'), 'ai': [1, 2, 3], '(ii)': (1, 2)}
 OUT_CANON = {'': None, 'i': [5], 's': ['res'], 'is': [4, 'four'], 'ai': [[1, 2, 3]], '(ii)': [[1, 2]]}
-OUTCOMES = ['value', 'deferred', 'deferred_fail', 'raise_named', 'raise_plain', 'raise_badname', 'raise_nul', 'unencodable']
+OUTCOMES = ['value', 'deferred', 'deferred_fail', 'raise_named', 'raise_plain', 'raise_badname', 'raise_nul', 'raise_oddclass', 'unencodable']
 
 
 class Conn:
@@ -24,6 +24,10 @@ class NamedError(Exception):
 
 class BadNameError(Exception):
     dbusErrorName = 'not a valid name'
+
+
+# a Python class name that is not a valid DBus name element (identifiers may be non-ASCII)
+OddClassError = type('Ошибка', (Exception,), {})
 
 
 def build_scenario(rnd):
@@ -69,6 +73,8 @@ def build_scenario(rnd):
                 raise BadNameError('bad')
             if outcome == 'raise_nul':
                 raise ValueError('text with a \0 byte')
+            if outcome == 'raise_oddclass':
+                raise OddClassError('odd')
             if outcome == 'unencodable':
                 return object()
         if wants_caller:
@@ -221,7 +227,8 @@ def one_call(rnd, sc, serial):
             return '%s (outcome %s): reply carries %r %r, the method returned %r under %r' % (what, outcome, back.signature, back.body, OUT_VALUE[so], so)
         return None
     want_err = {'deferred_fail': 'org.verif.Error.Named', 'raise_named': 'org.verif.Error.Named', 'raise_plain': 'org.txdbus.PythonException.KeyError',
-                'raise_badname': 'org.txdbus.InvalidErrorName', 'raise_nul': 'org.txdbus.PythonException.ValueError'}.get(outcome)
+                'raise_badname': 'org.txdbus.InvalidErrorName', 'raise_nul': 'org.txdbus.PythonException.ValueError',
+                'raise_oddclass': 'org.txdbus.InvalidErrorName'}.get(outcome)
     if type(r).__name__ != 'ErrorMessage':
         return '%s (outcome %s): reply is %s, expected an error' % (what, outcome, type(r).__name__)
     if want_err and r.error_name != want_err:
